@@ -413,6 +413,18 @@ def cls_praj_classing(d):
     return inc <= err
 
 
+def cls_praj_compressive(d):
+    """P_RAJ lifetime / infinite-life verdict of a load sequence without any tensile load (every load <= 0) that is not monotone
+    when the loads grow (scaling, or a larger gamma_L for a smaller P_A): the hystereses have S_max < 0, R >= 1, for which
+    damage_parameter.P_RAJ._compute_S_open sets S_open = S_max (the crack never opens inside the hysteresis); whether such a
+    hysteresis damages then depends only on which case of the crack-opening history (_compute_crack_opening_loop cases 1/2/3)
+    the previous hysteresis fell into, and that case flips back and forth as the loads grow"""
+    it = d['item']
+    if it['kind'] not in ('scale', 'pa') or d['measure'] not in ('RAJ_life', 'RAJ_inf', 'RAJ_times'):
+        return False
+    return all(s.get('ratios') is None and max(s['seq']) <= 0.0 for s in it['specs'])
+
+
 def cls_hcm_minmax_first_node(d):
     """P_RAJ quantity of a batch point other than the first whose recorded extreme strains of the load history (epsilon_min_LF /
     epsilon_max_LF, used by the crack-opening logic of P_RAJ) differ from those of its single assessment: the HCM updates them for
@@ -486,6 +498,7 @@ def register_classes(res):
     res.classes['class_edge_scale'] = cls_class_edge_scale
     res.classes['trailing_repeated_sample'] = cls_trailing_repeat
     res.classes['praj_classing_error'] = cls_praj_classing
+    res.classes['praj_compressive'] = cls_praj_compressive
 
 
 def wname(what, measure):
